@@ -3,7 +3,7 @@
 id=$1; shift
 cd /verif
 save=$(mktemp -d); cp -r /verif/evidence "$save/"; cp -r /verif/replays "$save/"
-git -C /repo apply /verif/seeded/$id/patch.diff || { echo "apply failed"; exit 2; }
+git -C /repo apply ${SEED_DIR:-/verif/seeded}/$id/patch.diff || { echo "apply failed"; exit 2; }
 for c in "$@"; do
   out=$(./check $c 2>&1); rc=$?
   echo "seed=$id check=$c rc=$rc"; echo "$out" | grep -E "VIOLATION|PROOF PROBLEM|disagreements" | head -6
